@@ -74,6 +74,8 @@ package repository
 //@ func RepoData.ListRefs
 //@   modifies nothing
 //@   ensures [none-on-error] result1 != nil ==> len(result) == 0
+//@   ensures [listed-exist]  forall k int :: { result[k] } 0 <= k && k < len(result) ==> (result[k] in refs) && strings.HasPrefix(result[k], refPrefix)
+//@   ensures [all-listed]    result1 == nil ==> (forall q string :: { (q in refs) } (q in refs) && strings.HasPrefix(q, refPrefix) ==> (exists k int :: { result[k] } 0 <= k && k < len(result) && result[k] == q))
 
 // Clocks live outside the modelled heap (their values are the subject of C05).
 //@ func RepoClock.Witness
@@ -98,3 +100,32 @@ package repository
 //@ func RepoCommon.GetRemotes
 //@   modifies nothing
 //@   ensures [remotes] result1 == nil ==> result != nil && (forall r string :: { (r in result) } (r in result) == (r in remotes))
+
+// ---- local git configuration (C14: wipe) -----------------------------------------------------------------
+// cfgKeys: the keys present in the repository's local configuration.
+//@ ghost var cfgKeys map[string]bool
+
+// ReadAll lists the entries under a key prefix (none is not an error).
+//@ func ConfigRead.ReadAll
+//@   modifies nothing
+//@   ensures [non-empty-has-key] len(result) > 0 ==> (exists k string :: (k in cfgKeys) && strings.HasPrefix(k, keyPrefix))
+//@   ensures [empty-means-none]  result1 == nil && len(result) == 0 ==> (forall k string :: { (k in cfgKeys) } (k in cfgKeys) ==> !strings.HasPrefix(k, keyPrefix))
+
+// RemoveAll removes every entry under the key prefix. Both implementations fail with "invalid key prefix"
+// when there is no such entry, and the existing tests pin that behaviour: callers must only ask for the
+// removal of something that exists (or be prepared for the error).
+//@ func ConfigWrite.RemoveAll
+//@   requires [prefix-present] exists k string :: (k in cfgKeys) && strings.HasPrefix(k, keyPrefix)
+//@   modifies cfgKeys
+//@   ensures [removed] result == nil ==> (forall k string :: { (k in cfgKeys) } (k in cfgKeys) == (old(k in cfgKeys) && !strings.HasPrefix(k, keyPrefix)))
+//@   ensures [error]   result != nil ==> cfgKeys == old(cfgKeys)
+
+//@ func RepoConfig.LocalConfig
+//@   modifies nothing
+//@   ensures result != nil
+
+// storageWiped: the local git-bug storage ($GIT_DIR/git-bug) has been emptied.
+//@ ghost var storageWiped bool
+//@ func LocalStorage.RemoveAll
+//@   modifies storageWiped
+//@   ensures result == nil ==> storageWiped
